@@ -171,7 +171,8 @@ class IdStub:
 
     def __call__(self):
         self.n += 1
-        return _uuid.UUID("c0ffee00" "0000" "4000" "8" + "%03x" % self.n + "deadbeefcafe")
+        # (24 bits of counter in the middle: first 13 and last 12 hex digits are the same for every value)
+        return _uuid.UUID("c0ffee00" "0000" "4" + "%03x" % ((self.n >> 12) & 0xFFF) + "8" + "%03x" % (self.n & 0xFFF) + "deadbeefcafe")
 
 
 class Seams:
@@ -1004,6 +1005,210 @@ def concurrent_configs() -> List[Dict[str, Any]]:
     return [{"slows": a, "other": b, "carry": c} for a in range(len(CONC_SLOWS)) for b in range(len(CONC_OTHER)) for c in (0, 1)]
 
 
+# ---------------------------------------------------------------------------
+# long runs on ONE store: a creation adds exactly one session and removes none, however many came before
+# ---------------------------------------------------------------------------
+RUN_LONG = "vf.checks.c19:run_long"
+LONG_N = [255, 256, 257, 511, 512, 513, 1024, 4096]
+LONG_IDLE = {"2h": 7200.0, "25h": 90000.0, "59min": 3540.0}
+LONG_VIA = ["create_session", "initialize", "alternating"]
+
+
+def run_long(ctl: explorer.Ctl, cfg: Dict[str, Any]) -> Dict[str, Any]:
+    from chuk_mcp.protocol.messages.json_rpc_message import parse_message
+
+    n, idle_name, via = cfg["n"], cfg["idle"], LONG_VIA[cfg["via"]]
+    viol: List[dict] = []
+    info: Dict[str, Any] = {"steps": 0}
+
+    def bad(cls, msg, **extra):
+        if not viol:
+            viol.append({"sig": {"class": cls, "quiet_session_idle_for": idle_name, "sessions_created_through": via, **extra},
+                         "msg": f"{n} creations through {via}, one quiet session idle for {idle_name}: {msg}"})
+
+    with Seams() as sm_seams:
+        sm_seams.reset()
+        clock = sm_seams.clock
+        handler = _factory()()
+        sm = handler.session_manager
+        model: Dict[str, str] = {}
+
+        async def main():
+            quiet = sm.create_session({"name": "quiet"}, "2025-06-18")
+            model[quiet] = "quiet"
+            clock.now += LONG_IDLE[idle_name]
+            prev = None
+            for i in range(1, n + 1):
+                clock.now += 0.5
+                name = f"c{i}"
+                if via == "create_session" or (via == "alternating" and i % 2):
+                    sid = sm.create_session({"name": name}, "2025-06-18")
+                else:
+                    wire = {"jsonrpc": "2.0", "id": i, "method": "initialize",
+                            "params": {"protocolVersion": "2025-06-18", "capabilities": {}, "clientInfo": {"name": name}}}
+                    ret = await handler.handle_message(parse_message(wire), None)
+                    sid = ret[1] if isinstance(ret, tuple) and len(ret) == 2 else None
+                if not isinstance(sid, str) or sid in model:
+                    bad("bad-or-repeated-session-id", f"creation {i} returned id {sid!r}", creation=_bucket(i))
+                    return
+                model[sid] = name
+                for step in ("create", "delete-previous"):
+                    if step == "delete-previous":
+                        if prev is None or i % 3 == 0:       # every third creation keeps its predecessor a while longer
+                            prev = sid if prev is None else prev
+                            if i % 3 == 0:
+                                continue
+                        else:
+                            if sm.delete_session(prev) is not True:
+                                bad("wrong-return", f"delete_session of the previous session returned not True at creation {i}",
+                                    creation=_bucket(i))
+                                return
+                            model.pop(prev, None)
+                            prev = sid
+                    info["steps"] += 1
+                    listing = sm.list_sessions()
+                    if sm.get_session_count() != len(model) or set(listing) != set(model):
+                        gone = [model[k] for k in model if k not in listing]
+                        bad("session-removed-by-a-creation" if gone and step == "create" else "store-differs-from-the-map",
+                            f"after {step} number {i}: store has {len(listing)} sessions, the map {len(model)}; gone: {gone[:4]}, "
+                            f"unexpected: {len([k for k in listing if k not in model])}",
+                            creation=_bucket(i), lost_the_quiet_session="quiet" in gone)
+                        return
+                    if sm.get_session(quiet) is None:
+                        bad("session-removed-by-a-creation", f"the quiet session is gone after {step} number {i}", creation=_bucket(i),
+                            lost_the_quiet_session=True)
+                        return
+
+        loop = new_loop(horizon=5)
+        status, val = loop.run_main(main())
+        errors = loop.collect_errors()
+        loop.abandon()
+    if status != "ok":
+        raise core.HarnessError(f"long run {cfg} did not complete: {status} {val!r}")
+    if errors:
+        raise core.HarnessError(f"long run {cfg}: event loop reported {errors[:2]}")
+    return {"outcome": f"steps-judged:{info['steps']}", "violations": viol, "counters": {"long-run-steps": info["steps"]}}
+
+
+def _bucket(i: int) -> str:
+    """The creation number in the harness's vocabulary (powers of two matter to sweepers and resizing tables)."""
+    if i > 0 and i & (i - 1) == 0:
+        return f"number-{i}:a-power-of-two"
+    if i % 256 == 0:
+        return "a-multiple-of-256"
+    return "other"
+
+
+def long_configs(tier: str) -> List[Dict[str, Any]]:
+    return [{"n": n, "idle": idle, "via": v} for n in LONG_N for idle in LONG_IDLE for v in range(len(LONG_VIA))
+            if tier == "thorough" or n <= 1024 or (idle == "2h" and v == 2)]
+
+
+# ---------------------------------------------------------------------------
+# near-miss ids: an id that is not a key finds nothing, refreshes nothing, deletes nothing
+# ---------------------------------------------------------------------------
+RUN_NEAR = "vf.checks.c19:run_near"
+NEAR_FORMS = ["trailing-LF", "trailing-CRLF", "trailing-space", "trailing-tab", "leading-space", "surrounded-by-blanks",
+              "upper-cased", "NUL-appended", "last-character-dropped", "first-character-dropped", "doubled", "as-bytes",
+              "trailing-NBSP", "trailing-U+2028"]
+NEAR_OPS = ["get_session", "update_activity", "delete_session", "ping-with-this-session-id", "initialize-with-this-session-id",
+            "unknown-method-with-this-session-id"]
+
+
+def near_id(sid: str, form: str) -> Any:
+    return {"trailing-LF": sid + "\n", "trailing-CRLF": sid + "\r\n", "trailing-space": sid + " ", "trailing-tab": sid + "\t",
+            "leading-space": " " + sid, "surrounded-by-blanks": " \t" + sid + " \n", "upper-cased": sid.upper(),
+            "NUL-appended": sid + "\x00", "last-character-dropped": sid[:-1], "first-character-dropped": sid[1:],
+            "doubled": sid + sid, "as-bytes": sid.encode("ascii"), "trailing-NBSP": sid + "\u00a0",
+            "trailing-U+2028": sid + "\u2028"}[form]
+
+
+def run_near(ctl: explorer.Ctl, cfg: Dict[str, Any]) -> Dict[str, Any]:
+    from chuk_mcp.protocol.messages.json_rpc_message import parse_message
+
+    form, op, moment = NEAR_FORMS[cfg["form"]], NEAR_OPS[cfg["op"]], cfg["moment"]
+    viol: List[dict] = []
+
+    def bad(cls, msg, **extra):
+        viol.append({"sig": {"class": cls, "id_form": form, "operation": op, **extra},
+                     "msg": f"{op} with the live session's id in the form '{form}' ({moment}): {msg}"})
+
+    with Seams() as sm_seams:
+        sm_seams.reset()
+        clock = sm_seams.clock
+        handler = _factory()()
+        sm = handler.session_manager
+
+        async def main():
+            sid = sm.create_session({"name": "live"}, "2025-06-18")
+            other = sm.create_session({"name": "other"}, "2025-03-26")
+            t_created = clock.now
+            near = near_id(sid, form)
+            if near == sid:
+                raise core.HarnessError(f"near-miss form {form} equals the id itself")
+            if moment == "after-9.5s":
+                clock.now += 9.5
+            before = {k: (r.client_info, r.protocol_version, r.created_at, r.last_activity) for k, r in sm.list_sessions().items()}
+            try:
+                if op == "get_session":
+                    got = sm.get_session(near)
+                    if got is not None:
+                        bad("near-miss-id-finds-a-session", f"get_session returned the record of {got.client_info!r}")
+                elif op == "update_activity":
+                    got = sm.update_activity(near)
+                    if got is not False:
+                        bad("near-miss-id-accepted", f"update_activity returned {got!r}")
+                elif op == "delete_session":
+                    got = sm.delete_session(near)
+                    if got is not False:
+                        bad("near-miss-id-accepted", f"delete_session returned {got!r}")
+                else:
+                    wire = {"ping-with-this-session-id": {"jsonrpc": "2.0", "id": 1, "method": "ping"},
+                            "initialize-with-this-session-id": {"jsonrpc": "2.0", "id": 1, "method": "initialize", "params": {
+                                "protocolVersion": "2025-06-18", "capabilities": {}, "clientInfo": {"name": "second"}}},
+                            "unknown-method-with-this-session-id": {"jsonrpc": "2.0", "id": 1, "method": "no/such"}}[op]
+                    ret = await handler.handle_message(parse_message(wire), near)
+                    if not (isinstance(ret, tuple) and len(ret) == 2 and ret[0] is not None):
+                        bad("wrong-return", f"handle_message returned {ret!r}")
+                    elif op.startswith("initialize") and isinstance(ret[1], str):
+                        before[ret[1]] = None      # the new session of this initialize
+            except Exception as e:  # noqa: BLE001
+                bad("op-raised", f"raised {type(e).__name__}: {str(e)[:80]}", detail=type(e).__name__)
+            after = {k: (r.client_info, r.protocol_version, r.created_at, r.last_activity) for k, r in sm.list_sessions().items()}
+            for k in before:
+                if before[k] is not None and after.get(k) != before[k]:
+                    what = "removed" if k not in after else ("last_activity" if after[k][:3] == before[k][:3] else "record")
+                    bad("near-miss-id-changed-a-session", f"the session of {before[k][0]!r} changed: {what} "
+                                                          f"({before[k][3]} -> {after.get(k, [None] * 4)[3]})", change=what,
+                        whose="the-similar-one" if k == sid else "another")
+            if set(after) - set(before):
+                bad("near-miss-id-created-a-session", f"{len(set(after) - set(before))} new sessions")
+            # the live session was not used under its own id: it expires when its own idle time says so
+            if not viol:
+                clock.now = t_created + 10.5
+                removed = sm.cleanup_expired(10)
+                if sm.get_session(sid) is not None:
+                    bad("session-kept-alive-by-a-near-miss-id", f"10.5 s after its creation and never used under its own id, "
+                                                                f"cleanup_expired(10) removed {removed} and the session is still there")
+
+        loop = new_loop(horizon=5)
+        status, val = loop.run_main(main())
+        errors = loop.collect_errors()
+        loop.abandon()
+    if status != "ok":
+        if isinstance(val, core.HarnessError):
+            raise val
+        raise core.HarnessError(f"near-miss {cfg} did not complete: {status} {val!r}")
+    if errors:
+        raise core.HarnessError(f"near-miss {cfg}: event loop reported {errors[:2]}")
+    return {"outcome": "nothing-found" if not viol else "accepted", "violations": viol[:2]}
+
+
+def near_configs() -> List[Dict[str, Any]]:
+    return [{"form": f, "op": o, "moment": m} for f in range(len(NEAR_FORMS)) for o in range(len(NEAR_OPS))
+            for m in ("at-once", "after-9.5s")]
+
+
 def run(tier: str, only=None) -> core.Result:
     res = core.Result("C19", "model_checking")
     depth = 5 if tier == "quick" else 6
@@ -1014,6 +1219,12 @@ def run(tier: str, only=None) -> core.Result:
             pass
     extra = 0 if tier == "quick" else 1
     r = bfs(res, depth, extra)
+    lcfgs = long_configs(tier)
+    outl = explorer.explore(RUN_LONG, lcfgs)
+    sched.absorb(res, "long-runs-on-one-store", RUN_LONG, outl, lcfgs, min_outcomes=1)
+    ncfgs = near_configs()
+    outn = explorer.explore(RUN_NEAR, ncfgs)
+    sched.absorb(res, "near-miss-session-ids", RUN_NEAR, outn, ncfgs, min_outcomes=1)
     ccfgs = concurrent_configs()
     outc = explorer.explore(RUN_CONC, ccfgs)
     sched.absorb(res, "concurrent-dispatches", RUN_CONC, outc, ccfgs)
@@ -1037,6 +1248,8 @@ def run(tier: str, only=None) -> core.Result:
     cov["all_histories_reaching_a_shared_state_agree"] = r["disagreements"] == 0 and not res.violations
     cov["unexpanded_states_at_max_depth"] = r["last_frontier"]
     cov["operations"] = len(OPS)
+    cov["long_run_steps"] = res.parts.get("long-runs-on-one-store", {}).get("counters", {}).get("long-run-steps", 0)
+    cov["near_miss_id_executions"] = res.parts.get("near-miss-session-ids", {}).get("executions", 0)
     cov["concurrent_dispatch_executions"] = res.parts.get("concurrent-dispatches", {}).get("executions", 0)
     # which expiry boundary relations were exercised (cleanup as the last operation of an execution), per max_age
     exp: Dict[str, int] = {}
@@ -1074,7 +1287,12 @@ def run(tier: str, only=None) -> core.Result:
         "dispatches of a registered handler that suspends and then raises or returns (with / without a session id), and one other "
         "operation (initialize, two initializes, create_session, ping with a session id, delete_session, initialize then delete) placed "
         "at every point of every interleaving of {start i, release i}: afterwards the store holds exactly the sessions of the "
-        "completed operations"
+        "completed operations.  Long runs: 255 / 256 / 257 / 511 / 512 / 513 / 1024 / 4096 creations (create_session, initialize, "
+        "alternating) on one store with deletions keeping the live set small and one quiet session idle for 59 min / 2 h / 25 h: after "
+        "every step count and membership follow the map.  Near-miss ids: 14 forms of a live id (trailing LF / CRLF / blank / tab / NBSP / "
+        "U+2028, leading or surrounding blanks, upper-cased, NUL appended, a character dropped, doubled, as bytes) x get / update / "
+        "delete / ping / initialize / unknown method with that id, at once and after 9.5 s: nothing is found, refreshed, deleted or "
+        "created, and the live session still expires by its own idle time"
     )
     res.assumptions = [
         "two ProtocolHandler objects built with the same arguments are independent servers: a session created through one is "
